@@ -122,7 +122,57 @@ func (prop) Generate(rng *rand.Rand, tier string) []corr.Case {
 	for i := 0; i < n; i++ {
 		cases = append(cases, genCase(rng, i, tier))
 	}
+	// failure-injection family (appended: the cases above keep their random draws), see genInject
+	k := 3
+	if tier == "thorough" {
+		k = 40
+	}
+	for i := 0; i < k; i++ {
+		cases = append(cases, genInject(rng, i))
+	}
 	return cases
+}
+
+// genInject: "errors after the point of no return". Every step kind (process, processValidated of a restored
+// temporary block, deleteBlock) runs with ONE failure armed (node.Arm: every method of labi.ABI - also those the engine
+// does not call on this path today - fails once; slow event subscribers; p2p publication error):
+//
+//	inj kind=<injection kind> on=blk|del|restore
+//
+// The step may succeed or fail; a step that reports an error must have left the database byte-identical and logged no
+// batch (c13-torn-state / c13-write-count), a step that succeeds must have written exactly one batch; the crash
+// enumeration runs over the disturbed steps like over any other step.
+var injPerm []int // order of the injection kinds for the current group of three cases (Generate is sequential)
+
+func genInject(rng *rand.Rand, i int) corr.Case {
+	nv := []int{1, 2, 4}[i%3]
+	mode := []string{"default", "small"}[i%2]
+	kinds := node.InjectionKinds()
+	if i%3 == 0 {
+		injPerm = rng.Perm(len(kinds))
+	}
+	if len(injPerm) == len(kinds) {
+		p := make([]string, len(kinds))
+		for a, b := range injPerm {
+			p[a] = kinds[b]
+		}
+		kinds = p
+	}
+	ops := []string{fmt.Sprintf("reset nv=%d seed=%d mode=%s keepev=0", nv, rng.Int63n(1<<40), mode), fmt.Sprintf("fill n=%d", 3*nv+2)}
+	// the kinds are dealt out over three consecutive cases; every kind disturbs a block step (the chain is long enough
+	// for the finalized height to follow the tip: the disturbed block raises it) and a removal or a restore
+	for j, k := range kinds {
+		if j%3 != i%3 {
+			continue
+		}
+		ops = append(ops, "inj kind="+k+" on=blk")
+		if (i+j)%2 == 0 {
+			ops = append(ops, "inj kind="+k+" on=del", "blk txs=1 assets=0 bev=0 aev=0")
+		} else {
+			ops = append(ops, "del temp=1", "inj kind="+k+" on=restore", "restore")
+		}
+	}
+	return corr.Case{Ops: ops, Tag: "inject/" + mode}
 }
 
 func genCase(rng *rand.Rand, i int, tier string) corr.Case {
@@ -431,6 +481,7 @@ type step struct {
 	postBFT   string
 	syncs     int
 	batches   int
+	inj       string // failure armed for this step (node.Arm); the step may succeed or fail: wantErr is what the reference run saw
 }
 
 var errNotApplied = errors.New("block was not applied")
@@ -441,6 +492,13 @@ func apply(n *node.Node, st *step) (err error) {
 			err = fmt.Errorf("panic: %v", r)
 		}
 	}()
+	var inj *node.Injection
+	if st.inj != "" {
+		if inj, err = n.Arm(st.inj); err != nil {
+			return err
+		}
+		defer inj.Disarm()
+	}
 	switch st.kind {
 	case "process", "bad":
 		r := n.ProcessResult(st.blk)
@@ -452,7 +510,7 @@ func apply(n *node.Node, st *step) (err error) {
 		}
 		return nil
 	case "pvalidated":
-		return n.ProcessValidated(st.blk, true)
+		return n.ProcessValidatedPublish(st.blk, true, inj.Publish())
 	case "delete":
 		return n.DeleteTip(st.saveTemp)
 	case "cleartemp":
@@ -572,6 +630,9 @@ func (r *runner) record(op int, st *step) {
 	r.wal = wal
 	st.batches = len(nb)
 	n.DrainEvents()
+	if st.inj != "" {
+		st.wantErr = err != nil // either is legitimate; what a reported error implies is checked below
+	}
 	if (err != nil) != st.wantErr {
 		r.fail(op, "c13-harness-step", "step %s: err=%v wantErr=%v", st.label, err, st.wantErr)
 	}
@@ -714,6 +775,48 @@ func (r *runner) plan(op int, line string) string {
 	case "cleartemp":
 		r.record(op, &step{kind: "cleartemp", label: "ClearTempBlocks"})
 		r.temp = nil
+	case "inj":
+		kind := strArg(w, "kind", "")
+		switch strArg(w, "on", "blk") {
+		case "blk":
+			b, err := n.BuildBlock(r.blockOpts([]string{"txs=1", "bev=1"}))
+			if err != nil {
+				r.fail(op, "c13-harness-step", "build: %v", err)
+				return "fail build"
+			}
+			st := &step{kind: "process", label: fmt.Sprintf("process h=%d with failure %s armed", b.Header.Height, kind), blk: b, inj: kind}
+			r.record(op, st)
+			if st.wantErr && bytes.Equal(n.Tip().Header.ID, st.preTip) {
+				// refused: the same block again, undisturbed
+				r.record(op, &step{kind: "process", label: fmt.Sprintf("process h=%d again", b.Header.Height), blk: b})
+			}
+		case "del":
+			tip := n.Tip()
+			if tip.Header.Height <= n.Finalized() {
+				return "skip"
+			}
+			st := &step{kind: "delete", label: fmt.Sprintf("delete h=%d with failure %s armed", tip.Header.Height, kind), inj: kind}
+			r.record(op, st)
+			if !bytes.Equal(n.Tip().Header.ID, st.preTip) {
+				recomputeMHG(n)
+			}
+		case "restore":
+			if len(r.temp) == 0 {
+				return "skip"
+			}
+			b := r.temp[len(r.temp)-1]
+			if !bytes.Equal(b.Header.PreviousBlockID, n.Tip().Header.ID) {
+				return "skip"
+			}
+			st := &step{kind: "pvalidated", label: fmt.Sprintf("processValidated h=%d removeTemp with failure %s armed", b.Header.Height, kind), blk: b, inj: kind}
+			r.record(op, st)
+			if !bytes.Equal(n.Tip().Header.ID, st.preTip) {
+				r.temp = r.temp[:len(r.temp)-1]
+				recomputeMHG(n)
+			}
+		default:
+			return "unknown op"
+		}
 	case "bad":
 		kind := strArg(w, "kind", "sig")
 		var b *blockchain.Block
